@@ -30,10 +30,16 @@ RULE = ("per dataset (PSM tables whose peptides come from a generated FASTA with
         "the seed given as a fresh numpy Generator instead of an int; run 2 re-using the model object and the result directory of run 1; "
         "Parquet input; feature columns with missing values (dropped by read_pin); FASTA without decoys (target-only: decoy peptides are "
         "mapped through match_decoy), FASTA handed over as two files, missed_cleavages 1-2, clip_nterm_methionine, semi; "
-        "brew(model=None) and target-only FASTA with anagram peptides are generated too and classified as known findings. "
+        "brew(model=None) (the default model, which brew seeds from its rng), target-only FASTA with anagram target peptides (match_decoy "
+        "has two candidates per decoy peptide and must choose with the rng of the run) and Parquet input WITH the protein level are "
+        "ordinary cases of the generator (regressions of repairs 611ab32, ebd023e, 7b6f120, 9b4fbd9 in /repo); in a second anagram dataset "
+        "(target-only-anagram-multi) the anagram peptides share their protein with a second peptide, so that their place among the keys of "
+        "peptide_map - the candidates of match_decoy - comes from set iteration order. No input class is exempted: there is no finding_key. "
         "distinct = (dataset, options, hash seed, workers); "
+        "every generated configuration is valid: an analysis that does not run through (a fold not trained, a result file of one of the three confidence runs missing, "
+        "no feed-back run) is a disagreement, not a skipped case; "
         "non-trivial = the analysis ran through (every fold trained, all result files of the three confidence runs written, the feed-back "
-        "runs done, the requested chunk sizes in force) and - when the protein level is on - at least one protein pair had its best "
+        "runs done, the requested chunk sizes in force) and at least one protein pair had its best "
         "score on two peptides (counted in the real groupby_max call), so that the seeded tie-break decided an output row")
 ASSUMPTIONS = [
     "bit-reproducibility of numpy Generators, liblinear and BLAS across processes is runtime: observed, not proved",
@@ -42,11 +48,11 @@ ASSUMPTIONS = [
     "results are compared between runs with the SAME chunk-size environment; equality across chunk sizes is C05 / C03, not C08",
     "a seed given as numpy Generator is 'fixed' when every run constructs it afresh from the same integer",
     "make_decoys(reverse=False) has no seed argument (it draws from numpy's global state): outside 'with a fixed seed', not exercised",
+    "'a fixed seed' = every rng argument of the public calls of the analysis (PercolatorModel, brew, assign_confidence) is given the seed, or the "
+    "object is left to brew (model=None, which brew seeds itself); a PercolatorModel that the caller builds WITHOUT rng= has drawn the state of "
+    "its grid-search KFold from OS entropy before any seed was supplied: a caller who did not fix all seeds, not generated",
 ]
 TRUSTED_EXTRA = ["subprocess isolation; PYTHONHASHSEED handling of CPython"]
-
-KEY_DEFAULT_MODEL = "brew:default-model-gridsearch-cv-unseeded"
-KEY_ANAGRAM = "picked_protein:target-only-fasta-match_decoy-global-state"
 
 CHUNK_ENV = {
     "trainread": "MOKAPOT_CHUNK_SIZE_READ_ALL_DATA",
@@ -70,18 +76,27 @@ def _comp(p):
 
 
 def _gen_fasta(rng, mode, fasta_args):
-    """(FASTA text, real read_fasta result, anagram triples).  target-only: no decoy entries, and the unique target
+    """(FASTA text, real read_fasta result, anagram triples, peptides that get no PSM).  target-only: no decoy entries, and the unique target
     peptides have pairwise different amino-acid compositions (so that match_decoy has exactly one candidate per decoy
-    peptide); target-only-anagram: three extra protein pairs whose only peptides are anagrams of each other."""
+    peptide); target-only-anagram: three extra protein pairs whose only peptides are anagrams of each other;
+    target-only-anagram-multi: six such pairs, each of these proteins with a second peptide."""
     for _ in range(200):
         fasta, tp, dp = c15.gen_fasta(rng, "mirror" if mode == "mirror" else "target-only", wide=True, trios=3)
-        anagrams = []
-        if mode == "target-only-anagram":
-            for t in range(3):
+        anagrams, silent = [], []
+        if mode in ("target-only-anagram", "target-only-anagram-multi"):
+            for t in range(3 if mode == "target-only-anagram" else 6):
                 body = rng.sample(c15.AA, 6)
                 x = "".join(body) + "K"
                 y = "".join(body[2:] + body[:2]) + "K"
-                fasta += ">ANA%dA first\n%s\n>ANA%dB second\n%s\n" % (t, x, t, y)
+                if mode == "target-only-anagram-multi":
+                    # the anagram peptide is one of TWO peptides of its protein: its place among the keys of
+                    # peptide_map then comes from the iteration order of a set of strings (digest)
+                    # (that second peptide gets no PSM: the protein is identified by its anagram peptide alone)
+                    u, v = ("".join(rng.sample(c15.AA, 7)) + "R" for _ in range(2))
+                    silent += [u, v]
+                    fasta += ">ANA%dA first\n%s%s\n>ANA%dB second\n%s%s\n" % (t, x, u, t, y, v)
+                else:
+                    fasta += ">ANA%dA first\n%s\n>ANA%dB second\n%s\n" % (t, x, t, y)
                 anagrams.append((x, y, "".join(body[::-1]) + "K"))
         P = c15._proteins({"fasta": fasta, "fasta_args": fasta_args})
         if P is None:
@@ -92,7 +107,7 @@ def _gen_fasta(rng, mode, fasta_args):
                 continue
             if any(_comp(a[0]) in {_comp(p) for p in keys} for a in anagrams):
                 continue
-        return fasta, P, anagrams
+        return fasta, P, anagrams, silent
     raise RuntimeError("no FASTA of the requested shape found")
 
 
@@ -109,11 +124,11 @@ def _dataset(rng, k, shape):
     # The twins carry feature values above those of all other PSMs, so that they are the two best peptides of their
     # pair and the tie is a tie for the best peptide of the protein (the worker counts such groups: `tie_groups`).
     for _ in range(100):
-        fasta, P, anagrams = _gen_fasta(rng, mode, fasta_args)
+        fasta, P, anagrams, silent = _gen_fasta(rng, mode, fasta_args)
         pkey = lambda gname: P.protein_map.get(gname.split(",")[0].strip(), gname.split(",")[0].strip())
         bykey = {}
         for pep, gname in sorted(P.peptide_map.items()):
-            if not any(pep in a for a in anagrams):
+            if not any(pep in a for a in anagrams) and pep not in silent:
                 bykey.setdefault(pkey(gname), []).append((pep, not gname.startswith(pre)))
         keys = sorted(bykey)
         rng.shuffle(keys)
@@ -137,9 +152,9 @@ def _dataset(rng, k, shape):
     dpeps = sorted(p for p, g in allp if g.startswith(pre))
     if mode != "mirror":
         # no decoy proteins: the decoy PSMs carry reversed target peptides (same composition, match_decoy maps them)
-        ana = {p for a in anagrams for p in a[:2]}
+        ana = {p for a in anagrams for p in a[:2]} | set(silent)
         dpeps = sorted({c15.mirror(p, "reverse", rng) for p in tpeps if p not in ana} - set(tpeps))
-    reserved = {pep for pr in pairs for pep, _ in pr} | {p for a in anagrams for p in a}
+    reserved = {pep for pr in pairs for pep, _ in pr} | {p for a in anagrams for p in a} | set(silent)
     tpool = [p_ for p_ in tpeps if p_ not in reserved] or tpeps
     dpool = [p_ for p_ in dpeps if p_ not in reserved] or dpeps
     n = rng.randint(*shape.get("n", (360, 520)))
@@ -256,13 +271,14 @@ def _plan(ctx, rng):
          {"ensemble": True, "chunks": "small", "sleep": True}, 3),
         ("three-files-parquet", {"nfiles": 3, "n": (560, 700), "nan_feats": True, "fasta_args": {"clip_nterm_methionine": True}},
          {"fmt": "parquet", "rng_kind": "generator", "reuse": True, "chunks": "small", "sleep": True}, 2),
-        # the two known findings
+        # brew's default model (seeded by brew from its rng); match_decoy with two candidate targets per decoy peptide
         ("default-model", {"n": (1500, 1800), "sep": 3.5}, {"model": "default"}, 3),
         ("target-only-anagram", {"fasta_mode": "target-only-anagram"}, {}, 3),
+        # the anagram peptides lie in proteins with two peptides: the key order of peptide_map depends on the hash seed
+        ("target-only-anagram-multi", {"fasta_mode": "target-only-anagram-multi"}, {}, 3),
     ]
     for name, shape, opts, folds in wb:
-        matrix = MATRIX_SMALL[:2] if name in ("default-model", "target-only-anagram") else MATRIX_SMALL[:3]
-        plan.append((name, shape, opts, folds, matrix))
+        plan.append((name, shape, opts, folds, MATRIX_SMALL if name == "target-only-anagram-multi" else MATRIX_SMALL[:3]))
     if ctx.thorough:
         r2 = ctx.sub("c08-wb-random")
         for j in range(14):
@@ -292,10 +308,6 @@ def gen(ctx):
         defaults = {"rng_kind": "int", "fmt": "tsv", "fasta_files": 1, "model": "percolator"}
         o = {kk: v for kk, v in opts.items() if kk not in ("chunks", "subset") and v is not None and v is not False
              and defaults.get(kk) != v}
-        if o.get("fmt") == "parquet":
-            # with Parquet input the protein level of /repo always fails (it writes proteins.parquet as text and reads it
-            # back as Parquet - repo_fixes/OBS-parquet-input-protein-level.py): PSM and peptide level only
-            o["proteins"] = False
         chunks = _small_chunks(drng) if opts.get("chunks") == "small" else {}
         if opts.get("subset"):
             # below the size of every training set, and each collection's share below that collection's training rows
@@ -305,9 +317,9 @@ def gen(ctx):
         base = {"fn": "history", "name": name, "files": files, "fasta": fasta, "fasta_args": fasta_args, "seed": drng.randint(1, 10 ** 6),
                 "folds": folds, "train_fdr": 0.05, "test_fdr": 0.2, "opts": o, "chunks": chunks,
                 "fasta_mode": shape.get("fasta_mode", "mirror"), "levels": list(shape.get("levels") or ())}
-        wbtags = (["wb:" + kk + ("" if o[kk] is True else "=%s" % o[kk]) for kk in sorted(o) if kk not in ("model", "proteins", "subset_max_train")]
+        wbtags = (["wb:" + kk + ("" if o[kk] is True else "=%s" % o[kk]) for kk in sorted(o) if kk not in ("model", "subset_max_train")]
                   + (["wb:subset_max_train"] if o.get("subset_max_train") else [])
-                  + (["wb:no-protein-level"] if o.get("proteins") is False else []) + (["wb:model=default"] if o.get("model") == "default" else [])
+                  + (["wb:model=default"] if o.get("model") == "default" else [])
                   + (["wb:small-chunks"] if chunks else [])
                   + ["wb:files=%d" % len(files), "wb:fasta=" + base["fasta_mode"]]
                   + (["wb:nan-features"] if shape.get("nan_feats") else [])
@@ -369,7 +381,10 @@ def run_case(c):
     res = fut.result() if fut is not None else _run_worker(c)
     # everything but the history (hash seed, worker count) identifies the analysis
     key = lib.stable_hash({k: v for k, v in c.items() if k not in ("tags", "hashseed", "workers")})
-    model = {"run2_equal": True, "perms_ok": True, "same_as_reference": True}
+    # every generated configuration is a valid one: the analysis runs through and writes all its result files ("yields ...
+    # result files (PSM, peptide and protein level)"); a failure that is the same in every run is not "reproducible", it
+    # is a configuration without results
+    model = {"ran_through": True, "run2_equal": True, "perms_ok": True, "same_as_reference": True}
     if "crash" in res:
         return ("ok", model), ("err", "worker crashed: " + res["crash"])
     ref = _REF.setdefault(key, res["run1"])
@@ -385,13 +400,14 @@ def run_case(c):
             "protein_ties_coarse": sum(x for x in res["run1"].get("_tie_groups_coarse") or [] if x > 0),
             "conf_coarse_error": res["run1"].get("conf_coarse_error"),
             "chunk_env_applied": all(int(v) in res.get("chunk_constants", {}).values() for v in (c.get("chunks") or {}).values())}
-    want_files = ((6 if (c.get("opts") or {}).get("proteins", True) else 4) + 2 * len(c.get("levels") or ())) * len(c["files"])
-    with_proteins = (c.get("opts") or {}).get("proteins", True)
-    _NONTRIVIAL[_ckey(c)] = bool((impl["protein_ties"] > 0 or not with_proteins) and impl["all_trained"] and not impl["error"] and not impl["conf_error"] and not impl["conf_tied_error"] and not impl["conf_coarse_error"]
-                                 and len(res["run1"].get("files") or {}) == want_files
-                                 and len(res["run1"].get("files_tied") or {}) == want_files
-                                 and len(res["run1"].get("files_coarse") or {}) == want_files
-                                 and impl["n_perms"] > 0 and impl["chunk_env_applied"])
+    want_files = (6 + 2 * len(c.get("levels") or ())) * len(c["files"])
+    impl["ran_through"] = bool(impl["all_trained"] and not impl["error"] and not impl["conf_error"] and not impl["conf_tied_error"]
+                               and not impl["conf_coarse_error"]
+                               and len(res["run1"].get("files") or {}) == want_files
+                               and len(res["run1"].get("files_tied") or {}) == want_files
+                               and len(res["run1"].get("files_coarse") or {}) == want_files
+                               and impl["n_perms"] > 0)
+    _NONTRIVIAL[_ckey(c)] = bool(impl["ran_through"] and impl["protein_ties"] > 0 and impl["chunk_env_applied"])
     if not impl["same_as_reference"]:
         impl["diff_keys"] = diff_keys(ref, res["run1"])
     if not impl["run2_equal"]:
@@ -402,7 +418,7 @@ def run_case(c):
 
 
 def same(c, m, i):
-    return i[0] == "ok" and all(i[1][k] == m[1][k] for k in ("run2_equal", "perms_ok", "same_as_reference"))
+    return i[0] == "ok" and all(i[1][k] == m[1][k] for k in ("ran_through", "run2_equal", "perms_ok", "same_as_reference"))
 
 
 def nontrivial(c):
@@ -414,6 +430,9 @@ def oracle(c, i):
     if i[0] != "ok":
         return str(i[1])
     o = i[1]
+    if not o["ran_through"]:
+        return ("the analysis of a valid configuration did not run through (no complete set of result files to compare): "
+                f"{[o.get(k) for k in ('error', 'conf_error', 'conf_tied_error', 'conf_coarse_error') if o.get(k)] or 'files missing / a fold not trained / no feed-back run'}")
     if not o["run2_equal"]:
         return f"repeating the analysis in the same process gives different results: {o.get('run2_diff')}"
     if not o["perms_ok"]:
@@ -421,27 +440,4 @@ def oracle(c, i):
     if not o["same_as_reference"]:
         return (f"results differ between interpreter sessions (PYTHONHASHSEED={c['hashseed']}, workers={c['workers']}): "
                 f"{o.get('diff_keys')}")
-    return None
-
-
-# observations that do not depend on the fitted models
-_UPSTREAM = {"features", "peptide_map", "shared_keys", "protein_map", "has_decoys", "folds", "error"}
-
-
-def finding_key(c, m, i):
-    """the two known findings, each confined to its input class AND to the observations it can touch"""
-    if i is None or i[0] != "ok":
-        return None
-    o = i[1]
-    diffs = list(o.get("diff_keys") or []) + list(o.get("run2_diff") or [])
-    if not diffs or not o["perms_ok"]:
-        return None
-    if (c.get("opts") or {}).get("model") == "default":
-        # brew(model=None): only what depends on the fitted models may differ
-        if not any(d.split(":")[0] in _UPSTREAM for d in diffs):
-            return KEY_DEFAULT_MODEL
-    if c.get("fasta_mode") == "target-only-anagram":
-        # only protein-level result files may differ
-        if all(d.split(":")[0] in ("files", "files_tied", "files_coarse") and d.endswith(".proteins") for d in diffs):
-            return KEY_ANAGRAM
     return None
